@@ -29,11 +29,11 @@ func init() {
 		Property: "C10",
 		Name:     "trierig",
 		Level:    "exploration",
-		Rule: "one run = one tape-driven history (quick 30-160, thorough 100-700 steps) on a plain Trie or a SecureTrie over trie.Database over a MemDB: TryUpdate (empty value = delete), TryDelete, TryGet, Hash, Commit, " +
+		Rule: "one run = one tape-driven history (quick 30-160, thorough 100-400 steps) on a plain Trie or a SecureTrie over trie.Database over a MemDB: TryUpdate (empty value = delete), TryDelete, TryGet, Hash, Commit, " +
 			"TrieDB.Commit, TrieDB.Cap, SetCacheLimit(0-3), reopen New(root, db), restart (new trie.Database over the disk db; unflushed commits are lost), missing-node episodes (one stored node reads as absent), checkpoints. " +
 			"Keys: empty, prefixes of each other, shared prefixes up to 31 bytes, 32-byte keys, nibble-level neighbours; values 1-80 bytes incl. exactly 32. Oracle: map model for every get; root is a function of the content " +
 			"(same content = same root, different content = different root, across the whole run; fresh sorted build and 2-4 shuffled histories with junk insert/delete, overwrites, commits, flushes and reopens reach the same root); " +
-			"iteration (full and from a start key, with per-leaf proofs) yields exactly the model in trie key order; Prove+VerifyProof for every key and a sample of absent keys gives exactly the model's answer; " +
+			"iteration (full and from a start key, with per-leaf proofs) yields exactly the model in trie key order; Prove+VerifyProof for every key (final checkpoint; a sample of 16 at intermediate checkpoints of larger tries) and a sample of absent keys gives exactly the model's answer; " +
 			"every single-node tampering of a proof list (byte flip, drop, substitution from another proof or another trie, duplicates) verifies to the truth or errors; under a missing node every call returns the model's answer or a *MissingNodeError, " +
 			"a failed update changes nothing. Non-trivial: >=5 keys at some checkpoint, >=1 commit followed by reads through unloaded nodes, >=1 proof check. Distinct = hash of the step sequence and roots.",
 		Real: []string{"libs/trie Trie, SecureTrie, Database (memory layer, Commit, Cap), hasher, node codec, NodeIterator/Iterator, Prove, VerifyProof", "libs/ser node encoding", "libs/crypto Keccak256", "libs/db MemDB as disk"},
@@ -45,7 +45,7 @@ func init() {
 			"restart = new trie.Database over the same disk db: only roots flushed with TrieDB.Commit survive; Dereference/garbage collection of the memory layer is not exercised",
 			"single-goroutine use (Trie is documented as not safe for concurrent use)",
 		},
-		QuickRuns: 20000, ThoroughRuns: 250000, QuickBudget: 50 * time.Second, ThoroughBudget: 15 * time.Minute,
+		QuickRuns: 12000, ThoroughRuns: 150000, QuickBudget: 50 * time.Second, ThoroughBudget: 15 * time.Minute,
 		Run: run, MaxProcs: envInt("TRIERIG_MAXPROCS", 1), RunsPerProcess: 2000, RunTimeout: 120 * time.Second,
 	})
 }
@@ -364,7 +364,7 @@ func run(c *kernel.Ctx) {
 
 	nsteps := s.cfg.Range(30, 160)
 	if c.Tier == kernel.Thorough {
-		nsteps = s.cfg.Range(100, 700)
+		nsteps = s.cfg.Range(100, 400)
 	}
 	base := []int{34, 5, 5, 18, 5, 8, 4, 2, 4, 1, 2, 3, 2, 0, 4}
 	w := make([]int, len(base))
